@@ -109,6 +109,50 @@ def validate_cases(tier, seed):
     return cs
 
 
+SCHEMA_SHAPE_PARTS = {0: 1, 1: 1, 2: 1, 3: 5, 4: 4, 5: 3, 6: 5}
+# number of top-level definitions of every piece (the harness refuses an order / cut that does not exist)
+SCHEMA_SHAPE_DEFS = {(0, None): 5, (1, None): 3, (2, None): 6,
+                     (3, 0): 7, (3, 1): 7, (3, 2): 7, (3, 3): 7, (3, 4): 7,
+                     (4, 0): 3, (4, 1): 3, (4, 2): 4, (4, 3): 5,
+                     (5, 0): 7, (5, 1): 8, (5, 2): 8,
+                     (6, 0): 4, (6, 1): 5, (6, 2): 6, (6, 3): 5, (6, 4): 6}
+
+
+def schema_load_cases(tier, seed):
+    """hval.SchemaShapes split on the pinned part (and the directive use site)."""
+    cs = []
+    for sh, parts in SCHEMA_SHAPE_PARTS.items():
+        if parts == 1:
+            if sh == 1:                      # by list / non-null shape of the interface argument's type
+                cs += [{"shape": sh, "alt1": a} for a in range(5)]
+            else:
+                cs.append({"shape": sh})
+            continue
+        for p in range(parts):
+            if sh == 5 and p == 0:           # by use site and by required / optional / defaulted argument of the directive
+                for site in range(10):
+                    cs += [{"shape": sh, "part": p, "site": site, "alt1": a} for a in range(3)]
+            else:
+                cs.append({"shape": sh, "part": p})
+    return cs
+
+
+def schema_order_cases(tier, seed):
+    """order: 0 reversed, 1..n-1 rotations, n.. transpositions; split: 0 one source, 1 one source per
+    definition, 1+c two sources cut after c definitions."""
+    cs = []
+    for c in schema_load_cases(tier, seed):
+        n = SCHEMA_SHAPE_DEFS[(c["shape"], c.get("part"))]
+        n_orders = 1 + (n - 1) + n * (n - 1) // 2
+        if tier == "quick":
+            combos = [(0, 1)]                # reversed, one source per definition
+        else:
+            combos = [(o, 1) for o in range(n_orders)] + [(0, 0)] + [(0, 1 + k) for k in range(1, n)] + [(1, 0)]
+        for o, sp in combos:
+            cs.append(dict(c, order=o, split=sp))
+    return cs
+
+
 def determinism_cases(tier, seed):
     """hval.Deterministic validates every document six times, so the quick tier takes the
     lighter pieces of each shape; thorough takes every piece of validate_cases."""
@@ -199,8 +243,29 @@ CHECKS = {
         "outside": "documents larger than the shapes; interactions needing more than 2 fragments or depth > 5; schemas other than the kitchen-sink one; per-rule verdicts (only the overall verdict is compared)",
         "assumptions": VALIDATE_ASSUME,
     },
+    "C07": {
+        "units": [{"pkg": "verifh/hval", "fn": "SchemaLoadRef", "cases": schema_load_cases, "panic_prop": "C02"}],
+        "covers": ["C07.loaded", "C07.rejected", "C07.query-root", "C07.type-named-mutation-is-not-a-root"],
+        "case_timeout": {"quick": 400, "thorough": 1200},
+        "level_text": "Type-system documents are token streams whose names (type references, kinds, member names, directive names and locations, root names) are solver variables; the real parser (lexer stubbed) and the real loader (validator.ValidateSchemaDocument on prelude + document, merged exactly as LoadSchema merges them) run symbolically. The loader's verdict is asserted equal to a reference checker written from section 3 of the specification, one function per rule of the property's statement; every returned schema is then asserted closed (built-ins present, introspection fields on the query root, every link resolves to the right kind, possible-type and implements relations equal the ones recomputed from the definitions, roots as written or defaulted).",
+        "bounds": {"quick": "7 type-system shapes (covariance of an implemented field over 5x6 named types x 5x5 list/non-null shapes incl. a union with an undefined member; arguments of an implemented field; interfaces implementing interfaces, transitively; kinds in output/argument/input/union/enum positions; reserved names, duplicates, empty definitions, extension kinds; directive locations x 10 use sites, required/unknown/null arguments, self-reference; root operation types with/without schema definition and extensions), all names symbolic",
+                   "thorough": "same"},
+        "outside": "type systems larger than the shapes; descriptions, default values (the loader does not check them); rules not in the property's list (duplicate enum values / union members / arguments, an interface implementing itself)",
+        "assumptions": PARSE_ASSUME + ["the prelude is parsed with the real lexer, concretely"],
+    },
+    "C17": {
+        "units": [{"pkg": "verifh/hval", "fn": "SchemaOrder", "cases": schema_order_cases, "panic_prop": "C02"}],
+        "covers": ["C17.both-loaded", "C17.both-rejected"],
+        "case_timeout": {"quick": 600, "thorough": 2400},
+        "level_text": "Self-composition: the definitions of a type-system shape (same solver variables for the names) are loaded once in the written order from one source and once reordered / distributed over sources; verdicts and, when both load, the two schemas (types, fields/values/members/interfaces as sets, relations, roots, directives) are asserted equal; an error must name one of the sources.",
+        "bounds": {"quick": "the C07 shapes; orders: reversed, every rotation and every transposition of the 3-8 definitions (case split, not all n! orders); distributions: one source, one source per definition, two sources cut at every position",
+                   "thorough": "same"},
+        "outside": "orders that are neither a reversal, a rotation nor a transposition of the written order; more than one source per definition; more than 8 definitions",
+        "assumptions": PARSE_ASSUME + ["the prelude is parsed with the real lexer, concretely"],
+    },
     "C02": {
-        "units": [{"pkg": "verifh/hval", "fn": "ValidateRef", "cases": validate_cases, "panic_prop": "C02"}],
+        "units": [{"pkg": "verifh/hval", "fn": "ValidateRef", "cases": validate_cases, "panic_prop": "C02"},
+                  {"pkg": "verifh/hval", "fn": "SchemaLoadRef", "cases": schema_load_cases, "panic_prop": "C02"}],
         "covers": [],
         "case_timeout": {"quick": 400, "thorough": 1200},
         "bounds": {"quick": "validation part only: no run-time panic (index, nil, slice, type assertion, explicit panic, map write) and no exceeded unwinding/recursion bound in Validate with all rules on the C08 document shapes",
